@@ -118,7 +118,8 @@ func NewComponents(spec specification.Components, cfg Config) (zero Components, 
 						oName += Title(ss)
 					}
 				}
-				if raw != "" && strings.HasSuffix(raw, "/") {
+				// same rule as NewOperationName: "/" itself is not a trailing-slash path
+				if dirs := strings.Split(raw, "/")[1:]; len(dirs) > 1 && dirs[len(dirs)-1] == "" {
 					oName += "RT"
 				}
 			}
